@@ -49,7 +49,7 @@ static inline double avm_u2d(uint64_t u) { union { uint64_t u; double f; } c; c.
 static inline uint32_t avm_f2u(float f)  { union { uint32_t u; float f; } c; c.f = f; return c.u; }
 static inline uint64_t avm_d2u(double f) { union { uint64_t u; double f; } c; c.f = f; return c.u; }
 
-typedef long double avm_max_align_t;     /* alignof == 16 on x86-64, like std::max_align_t */
+typedef struct { long long avm_ll; long double avm_ld; } avm_max_align_t;     /* sizeof == 32, alignof == 16 on x86-64, like std::max_align_t of libstdc++ / libc++ */
 /* placement new of a scalar object: the storage must be suitably aligned for T ([basic.align]; UBSan: misaligned address) */
 extern size_t avm_base_mod;
 void* avm_blk_base;   /* ghost: base address of the block handed to deallocate (what the allocator must free) */
